@@ -405,6 +405,19 @@ def _hint(sh):
     return sh[0] if sh else None
 
 
+def _locals_in(x):
+    out = set()
+    if isinstance(x, dict):
+        if 'l' in x and isinstance(x['l'], int) and 'p' in x:
+            out.add(x['l'])
+        for v in x.values():
+            out |= _locals_in(v)
+    elif isinstance(x, list):
+        for v in x:
+            out |= _locals_in(v)
+    return out
+
+
 class _Sim:
     """forward partial evaluation of the code that follows a definition of an inlined helper's return value whose
     variant structure is evident.  Only moves / borrows / discriminant reads of the tracked value, `?` on it and
@@ -444,6 +457,9 @@ class _Sim:
             return None
         return sh
 
+    def _tracked_locals(self):
+        return {l for (l, _) in self.env} | set(self.ival) | set(self.bval)
+
     def stmt(self, s_):
         if s_['s'] in ('live', 'dead'):
             return dict(s_)
@@ -452,6 +468,10 @@ class _Sim:
         d = s_['pl']['l']
         rv = s_['rv']
         r = rv['r']
+        tl = self._tracked_locals()
+        if d not in tl and not (_locals_in(rv) & tl) and r in ('agg', 'use', 'ref', 'cast', 'bin', 'un'):
+            # has nothing to do with the tracked value (e.g. the closure of the next adapter is built): carried along
+            return copy.deepcopy(s_)
         out = copy.deepcopy(s_)
         out['tid'] = self.tid
         if r == 'use':
@@ -690,33 +710,39 @@ def instantiate_generics(P, blocks, caller_gargs):
     args = _split_gargs(caller_gargs)
     if not args:
         return
+    PARAM = r"(?:impl [^,\[\]]*?|\b\w+)/#(\d+)"
     for b in blocks:
         t = b['term']
-        if t['t'] != 'call' or not t.get('trait') or t.get('resolved'):
+        if t['t'] != 'call' or not t.get('gargs') or '/#' not in t['gargs']:
             continue
         ga = _split_gargs(t.get('gargs'))
         if not ga:
             continue
-        if not re.search(r'\w+/#\d+', ga[0]):
-            continue
         bad = []
         def sub(m):
             i = int(m.group(1))
-            if i >= len(args) or re.search(r'\w+/#\d+', args[i]) or args[i].startswith("'"):
+            if i >= len(args) or '/#' in args[i] or args[i].startswith("'"):
                 bad.append(i)
                 return m.group(0)
             return args[i]
-        conc = re.sub(r'\b\w+/#(\d+)', sub, ga[0])       # `T` itself, or a type built from it (`Indexed<T>`)
+        def inst(g):
+            m = re.match(r'^(.*)/#(\d+)$', g)
+            if m and '/#' not in m.group(1):
+                return sub(re.match(r'^.*/#(\d+)$', g))        # the argument is the parameter itself (`T`, `impl Trait`)
+            return re.sub(PARAM, sub, g)                         # a type built from it (`Indexed<T>`)
+        ng = [inst(g) for g in ga]
         if bad:
             continue
-        method = t['callee'].rsplit('::', 1)[-1]
-        try:
-            ib = P.find_impl(norm(t['trait']), norm(conc), method)
-        except Exception:
-            continue
-        t['resolved'] = ib.raw
-        t['gargs'] = '[' + ', '.join([conc] + ga[1:]) + ']'
-        t['instantiated'] = True
+        if t.get('trait') and not t.get('resolved') and ng[0] != ga[0]:
+            method = t['callee'].rsplit('::', 1)[-1]
+            try:
+                ib = P.find_impl(norm(t['trait']), norm(ng[0]), method)
+                t['resolved'] = ib.raw
+                t['instantiated'] = True
+            except Exception:
+                pass
+        if ng != ga:
+            t['gargs'] = '[' + ', '.join(ng) + ']'
 
 
 MAP_ADAPTERS = {'core::result::Result::map': ('core::result::Result', 'Ok', 'Err', True), 'core::option::Option::map': ('core::option::Option', 'Some', 'None', False),
@@ -773,11 +799,183 @@ def expand_ctor_maps(P, D):
         other_blk = {'cleanup': False, 'inl': 'map', 'stmts': other_stmts, 'term': {'t': 'goto', 'succ': [int(succ[0])]}}
         D['blocks'].append(hit_blk)
         D['blocks'].append(other_blk)
+        D['blocks'].append({'cleanup': False, 'inl': 'map', 'stmts': [], 'term': {'t': 'unreachable'}})
         b['stmts'].append(_assign({'l': d_, 'p': []}, {'r': 'discr', 'pl': {'l': xl, 'p': []}, 'of': of}, line))
         b['term'] = {'t': 'switch', 'discr': {'k': 'move', 'pl': {'l': d_, 'p': []}}, 'dty': 'isize',
-                     'vals': [[val[hit], nb], [val[other], nb + 1]], 'otherwise': nb + 1, 'span': t.get('span', {})}
+                     'vals': [[val[hit], nb], [val[other], nb + 1]], 'otherwise': nb + 2, 'span': t.get('span', {})}
         n += 1
     return n
+
+
+# std adapters written out as the match they stand for when their callback is a closure literal (or they take none):
+#   callee -> (is_result, variant that is processed, what happens to it, what happens to the other variant)
+ALWAYS_EXPAND = True
+CLOSURE_ADAPTERS = {
+    'core::option::Option::map': (False, 'Some', 'call-wrap', 'keep'),
+    'core::result::Result::map': (True, 'Ok', 'call-wrap', 'keep'),
+    'core::result::Result::map_err': (True, 'Err', 'call-wrap', 'keep'),
+    'core::option::Option::and_then': (False, 'Some', 'call', 'keep'),
+    'core::result::Result::and_then': (True, 'Ok', 'call', 'keep'),
+    'core::option::Option::unwrap_or': (False, 'Some', 'payload', 'arg'),
+    'core::result::Result::unwrap_or': (True, 'Ok', 'payload', 'arg'),
+    'core::option::Option::unwrap_or_else': (False, 'Some', 'payload', 'call0'),
+    'core::option::Option::map_or': (False, 'Some', 'call2', 'arg'),
+    'core::option::Option::is_some_and': (False, 'Some', 'call', 'false'),
+    'core::option::Option::is_none_or': (False, 'Some', 'call', 'true'),
+}
+
+
+def _closure_literal(D, o):
+    """the operand is a local holding a closure built right here (a closure literal passed as an argument), or names a
+    function (`.map(Authorization::from)`)"""
+    if o.get('k') == 'const' and o.get('fn'):
+        return True
+    if o.get('k') not in ('copy', 'move') or o['pl']['p']:
+        return False
+    l = o['pl']['l']
+    defs = [s_ for b in D['blocks'] for s_ in b['stmts'] if s_['s'] == 'assign' and s_['pl']['l'] == l]
+    return len(defs) == 1 and not defs[0]['pl']['p'] and defs[0]['rv']['r'] == 'agg' and 'closure' in defs[0]['rv']
+
+
+def expand_closure_adapters(P, D):
+    """`x.map(|v| ..)`, `x.and_then(|v| ..)`, `x.map_err(|e| ..)`, `x.unwrap_or(d)`, `x.map_or(d, |v| ..)` ... with a closure
+    literal: written out as the match std defines them to be, the callback becoming a direct call of the closure (which the
+    inliner then inlines).  A combinator chain and the match it replaces read the same to the rules.  Returns the number
+    of adapters rewritten."""
+    n = 0
+    later = []
+    FNONCE = 'core::ops::function::FnOnce::call_once'
+    for bi in range(len(D['blocks'])):
+        b = D['blocks'][bi]
+        t = b['term']
+        if b['cleanup'] or t['t'] != 'call':
+            continue
+        cal = norm(t.get('callee', ''))
+        if cal not in CLOSURE_ADAPTERS or not t['args'] or t['dest']['p']:
+            continue
+        is_result, hit, hit_do, other_do = CLOSURE_ADAPTERS[cal]
+        x = t['args'][0]
+        if x.get('k') not in ('copy', 'move') or x['pl']['p']:
+            continue
+        succ = [s_ for s_ in t.get('succ', []) if s_ != '']
+        if len(succ) != 1:
+            continue
+        nargs = len(t['args'])
+        clos = None
+        if hit_do in ('call', 'call-wrap'):
+            if nargs != 2 or not _closure_literal(D, t['args'][1]):
+                continue
+            clos = t['args'][1]
+        elif hit_do == 'call2':
+            if nargs != 3 or not _closure_literal(D, t['args'][2]):
+                continue
+            clos = t['args'][2]
+        if other_do == 'call0' and (nargs != 2 or not _closure_literal(D, t['args'][1])):
+            continue
+        if other_do == 'arg' and nargs < 2:
+            continue
+        of = RESULT_OF if is_result else OPTION_OF
+        names = [nm for nm, _ in of['variants']]
+        other = [nm for nm in names if nm != hit][0]
+        val = {nm: v for nm, v in of['variants']}
+        idx = {nm: i for i, (nm, v) in enumerate(of['variants'])}
+        outer = of['adt']
+        line = t.get('span', {}).get('line')
+        span = t.get('span', {})
+        L = len(D['locals'])
+        D['locals'] = list(D['locals']) + ['isize', '?', '(?,)', '?', '?', '()']
+        d_, p_, tup_, r_, e_, unit_ = L, L + 1, L + 2, L + 3, L + 4, L + 5
+        xl = x['pl']['l']
+        join = int(succ[0])
+        nb = len(D['blocks'])
+        dest = dict(t['dest'])
+        new_blocks = []
+        # ---- the processed variant
+        hit_stmts = [_assign({'l': p_, 'p': []}, _use({'k': 'move', 'pl': {'l': xl, 'p': ['downcast:%d:%s' % (idx[hit], hit), 'field:0:0']}}), line)]
+        if hit_do == 'payload':
+            hit_stmts.append(_assign(dest, _use({'k': 'move', 'pl': {'l': p_, 'p': []}}), line))
+            hit_blk = {'cleanup': False, 'inl': 'adapter', 'stmts': hit_stmts, 'term': {'t': 'goto', 'succ': [join]}}
+            new_blocks.append(hit_blk)
+        else:
+            wrap = hit_do == 'call-wrap'
+            call_dest = {'l': r_, 'p': []} if wrap else dest
+            after = nb + 1 if wrap else join
+            ctor = None
+            if clos.get('k') == 'const' and clos.get('fn') and '::' in norm(clos['fn']):
+                adt_, var_ = norm(clos['fn']).rsplit('::', 1)
+                a_ = P.adts.get(adt_)
+                std_ = {'core::option::Option': ['None', 'Some'], 'core::result::Result': ['Ok', 'Err']}
+                if (a_ is not None and var_ in [v_['name'] for v_ in a_['variants']]) or var_ in std_.get(adt_, []):
+                    ctor = (adt_, var_)
+            if ctor is not None:
+                # the callback is a variant constructor (`.map_or(Ok(()), Err)`): the call is that aggregate
+                hit_stmts.append(_assign(call_dest, {'r': 'agg', 'adt': ctor[0], 'variant': ctor[1], 'fields': ['0'], 'a': [{'k': 'move', 'pl': {'l': p_, 'p': []}}]}, line))
+                hit_blk = {'cleanup': False, 'inl': 'adapter', 'stmts': hit_stmts, 'term': {'t': 'goto', 'succ': [after]}}
+            else:
+                hit_stmts.append(_assign({'l': tup_, 'p': []}, {'r': 'agg', 'tuple': True, 'a': [{'k': 'move', 'pl': {'l': p_, 'p': []}}]}, line))
+                hit_blk = {'cleanup': False, 'inl': 'adapter', 'stmts': hit_stmts,
+                           'term': {'t': 'call', 'callee': FNONCE, 'trait': 'core::ops::function::FnOnce', 'args': [clos, {'k': 'move', 'pl': {'l': tup_, 'p': []}}],
+                                    'dest': call_dest, 'succ': [after], 'span': span, 'gargs': ''}}
+            new_blocks.append(hit_blk)
+            if wrap:
+                new_blocks.append({'cleanup': False, 'inl': 'adapter', 'stmts': [
+                    _assign(dest, {'r': 'agg', 'adt': outer, 'variant': hit, 'fields': ['0'], 'a': [{'k': 'move', 'pl': {'l': r_, 'p': []}}]}, line)],
+                    'term': {'t': 'goto', 'succ': [join]}})
+        other_idx = nb + len(new_blocks)
+        # ---- the other variant
+        if other_do == 'keep':
+            if other == 'None':
+                st = [_assign(dest, {'r': 'agg', 'adt': outer, 'variant': 'None', 'fields': [], 'a': []}, line)]
+            else:
+                st = [_assign({'l': e_, 'p': []}, _use({'k': 'move', 'pl': {'l': xl, 'p': ['downcast:%d:%s' % (idx[other], other), 'field:0:0']}}), line),
+                      _assign(dest, {'r': 'agg', 'adt': outer, 'variant': other, 'fields': ['0'], 'a': [{'k': 'move', 'pl': {'l': e_, 'p': []}}]}, line)]
+            new_blocks.append({'cleanup': False, 'inl': 'adapter', 'stmts': st, 'term': {'t': 'goto', 'succ': [join]}})
+        elif other_do == 'arg':
+            new_blocks.append({'cleanup': False, 'inl': 'adapter', 'stmts': [_assign(dest, _use(t['args'][1]), line)], 'term': {'t': 'goto', 'succ': [join]}})
+        elif other_do in ('true', 'false'):
+            new_blocks.append({'cleanup': False, 'inl': 'adapter', 'stmts': [_assign(dest, _use({'k': 'const', 'ty': 'bool', 'val': other_do, 'repr': 'const ' + other_do}), line)],
+                               'term': {'t': 'goto', 'succ': [join]}})
+        elif other_do == 'call0':
+            new_blocks.append({'cleanup': False, 'inl': 'adapter', 'stmts': [_assign({'l': unit_, 'p': []}, {'r': 'agg', 'tuple': True, 'a': []}, line)],
+                               'term': {'t': 'call', 'callee': FNONCE, 'trait': 'core::ops::function::FnOnce', 'args': [t['args'][1], {'k': 'move', 'pl': {'l': unit_, 'p': []}}],
+                                        'dest': dest, 'succ': [join], 'span': span, 'gargs': ''}})
+        new_blocks.append({'cleanup': False, 'inl': 'adapter', 'stmts': [], 'term': {'t': 'unreachable'}})
+        D['blocks'].extend(new_blocks)
+        b['stmts'].append(_assign({'l': d_, 'p': []}, {'r': 'discr', 'pl': {'l': xl, 'p': []}, 'of': of}, line))
+        b['term'] = {'t': 'switch', 'discr': {'k': 'move', 'pl': {'l': d_, 'p': []}}, 'dty': 'isize',
+                     'vals': [[val[hit], nb], [val[other], other_idx]], 'otherwise': nb + len(new_blocks) - 1, 'span': span}
+        n += 1
+        if hit_do == 'call-wrap' or other_do == 'keep':
+            later.append((nb, nb + len(new_blocks) - 1, dest['l'], join))
+    # the value an adapter builds is usually taken apart by the next adapter of the chain: decide those tests per definition
+    for lo, hi, dl, join in later:
+        try:
+            thread_returns(D, lo, hi, dl, (dl, ()), join)
+        except Exception:
+            pass
+    if n:
+        D['adapters'] = D.get('adapters', 0) + n
+    return n
+
+
+def body_changed(P, b, sigs):
+    """does the body call something else than the pinned body did?  (adapter chains are only written out where the code
+    differs from the pinned tree: the pinned bodies read exactly as they did when the rules were written)"""
+    own = re.sub(r'(::\{closure#\d+\})+$', '', b.path)
+    sg = sigs.get(own)
+    if sg is None or len(sg) <= 5:
+        return True
+    cur = set()
+    for p2, bs2 in P.bodies.items():
+        if p2 == own or p2.startswith(own + '::{closure#'):
+            for b2 in bs2:
+                if not b2.is_promoted:
+                    cur |= {cs.resolved or cs.declared for cs in b2.calls() if (cs.resolved or cs.declared)}
+    pinned = set(sg[5])
+    noise = lambda x: x.startswith('tracing') or x.startswith('core::fmt::') or x.startswith('core::panicking::')
+    if len(pinned) >= 60:
+        return not ({x for x in pinned if not noise(x)} <= cur)
+    return {x for x in cur if not noise(x)} != {x for x in pinned if not noise(x)}
 
 
 class Inliner:
@@ -859,6 +1057,11 @@ class Inliner:
             did = False
             for cs in B.calls():
                 tgt = cs.resolved if self.is_helper(cs.resolved) else (cs.declared if self.is_helper(cs.declared) else None)
+                if tgt is None and cs.declared == 'core::convert::Into::into':
+                    # `a.into()` is std's blanket impl: `B::from(a)` - if that From impl is a new helper, it is the callee
+                    ip = from_impl_for_into(self.P, cs.gargs)
+                    if ip is not None and self.is_helper(ip):
+                        tgt = ip
                 if tgt is None and cs.t.get('devirt') and cs.resolved:
                     # a closure literal called on the spot (exposed by inlining the generic helper it was passed to)
                     cb_ = self.P.get(cs.resolved)
@@ -913,7 +1116,40 @@ class Inliner:
         return D
 
     def memo_has_inlined(self, D):
-        return bool(D.get('inlined'))
+        return bool(D.get('inlined')) or bool(D.get('adapters'))
+
+
+def from_impl_for_into(P, gargs):
+    """path of `<B as From<A>>::from` in the program for an `Into::into` call with type arguments [A, B] (None if there
+    is none, or the types are not concrete)"""
+    ga = _split_gargs(gargs)
+    if not ga or len(ga) != 2 or any('/#' in g for g in ga) or norm(ga[0]) == norm(ga[1]):
+        return None
+    try:
+        ib = P.find_impl('core::convert::From', norm(ga[1]), 'from', norm(ga[0]))
+    except Exception:
+        return None
+    return ib.path if ib is not None else None
+
+
+def unnamed_callers_possible(P, hb, leaving=()):
+    """could a `From::from` impl still be reached through a call that does not name it (an `.into()` / `?` conversion /
+    generic call that was not resolved and inlined)?"""
+    m = re.match(r'^<(.+) as core::convert::From<(.+)>>::from$', hb.path)
+    if not m:
+        return True
+    tgt_ty, src_ty = m.group(1), m.group(2)
+    for b in P.all_bodies():
+        if b.crate not in CRATES or b.is_promoted or b.path == hb.path or re.sub(r'(::\{closure#\d+\})+$', '', b.path) in leaving:
+            continue
+        for cs in b.calls():
+            d = cs.declared or ''
+            if d not in ('core::convert::Into::into', 'core::convert::From::from', 'core::ops::try_trait::FromResidual::from_residual', 'core::convert::TryInto::try_into') and not (cs.t.get('trait') and '/#' in (cs.gargs or '')):
+                continue
+            g = cs.gargs or ''
+            if tgt_ty.split('<')[0] in g and (src_ty.split('<')[0] in g or '/#' in g):
+                return True
+    return False
 
 
 def relocate_moved(P, known):
@@ -1129,7 +1365,15 @@ def apply(P, known=None):
     inl.renamed_params = alias_param_names(P)
     inl.bundled_params = alias_bundled_params(P)
     # adapters with a constructor passed as a function are written out (everywhere: a refactoring may introduce one
-    # without adding any function)
+    # without adding any function); adapters with a closure literal where the body differs from the pinned one
+    sigs_ = load_sigs() or {}
+    changed_ = {}
+    for path, bs in list(P.bodies.items()):
+        for b in bs:
+            if not (b.is_promoted or b.crate not in CRATES or b.kind in ('Static', 'Const', 'AssocConst')):
+                own = re.sub(r'(::\{closure#\d+\})+$', '', b.path)
+                if own not in changed_:
+                    changed_[own] = body_changed(P, b, sigs_)
     for path, bs in list(P.bodies.items()):
         for i, b in enumerate(bs):
             if b.is_promoted or b.crate not in CRATES or b.kind in ('Static', 'Const', 'AssocConst'):
@@ -1137,6 +1381,13 @@ def apply(P, known=None):
             if any(bl['term']['t'] == 'call' and norm(bl['term'].get('callee', '')) in MAP_ADAPTERS and len(bl['term']['args']) == 2 and bl['term']['args'][1].get('fn') for bl in b.blocks):
                 D = copy.deepcopy(b.d)
                 if expand_ctor_maps(P, D):
+                    nb = Body(D, b.crate)
+                    nb.prog = P
+                    bs[i] = nb
+                    b = nb
+            if any(bl['term']['t'] == 'call' and norm(bl['term'].get('callee', '')) in CLOSURE_ADAPTERS for bl in b.blocks) and (ALWAYS_EXPAND or changed_.get(re.sub(r'(::\{closure#\d+\})+$', '', b.path), True)):
+                D = copy.deepcopy(b.d)
+                if expand_closure_adapters(P, D):
                     nb = Body(D, b.crate)
                     nb.prog = P
                     bs[i] = nb
@@ -1149,7 +1400,7 @@ def apply(P, known=None):
             todo.append((path, b))
     # does anything unknown exist at all?
     unknown = [p for p, b in todo if b.kind in ('Fn', 'AssocFn') and p not in known]
-    if not unknown:
+    if not unknown and not any(b.d.get('adapters') for _, b in todo):
         return inl
     for path, b in todo:
         D = inl.inl(path)
@@ -1197,8 +1448,11 @@ def apply(P, known=None):
         hb = P.get(h)
         if hb is not None and hb.trait:
             # a trait method can be reached without being named (blanket impls such as Into for From, generic and dyn
-            # dispatch): it stays in the program even if every direct call was inlined
-            continue
+            # dispatch): it stays in the program even if every direct call was inlined - unless it is a From conversion
+            # and no conversion between its two types is left anywhere in the crate (`.into()` calls are resolved above)
+            leaving = {x for x in inl.inlined_fns if x not in still and not (P.get(x) is not None and P.get(x).trait)}
+            if not (norm(hb.trait) == 'core::convert::From' and not unnamed_callers_possible(P, hb, leaving)):
+                continue
         for p in list(P.bodies):
             if p == h or (hb is not None and hb.is_async and p == h + '::{closure#0}'):
                 inl.removed.append(p)
